@@ -4,6 +4,8 @@ import PyrexVerif.Proofs.RayBasic
 import PyrexVerif.Proofs.RayFTC
 import PyrexVerif.Proofs.RayTrap
 import PyrexVerif.Proofs.RayPath
+import PyrexVerif.Proofs.RayCut
+import PyrexVerif.Proofs.RayFormulaBridge
 /-!
 # C01 — every ray-trace solution is a true ray joining its two endpoints
 
@@ -33,6 +35,20 @@ theorem C01_constants :
     RayConstants.linkRangeNum, RayConstants.linkRangeDen,
     RayConstants.cLightNum, RayConstants.cLightDen]
   norm_num
+
+/-- formula-level tie: the expressions translated node by node from `pyrex/ray_tracing.py`
+(`twin/RayFormulas.body`, regenerated on every run) are the hand-written model definitions the theorems
+below are about; a changed sign, factor or term in `_int_terms` or in any branch of the three indefinite
+integrals breaks this proof -/
+theorem C01_formula_bridge (I : Ice) (z β : ℝ) (deep : Bool) :
+    RayGen.int_terms_0 I z β = alphaT I β ∧ RayGen.int_terms_1 I z β = nzT I z ∧
+    RayGen.int_terms_2 I z β = gammaT I z β ∧ RayGen.int_terms_3 I z β = log1T I z β ∧
+    RayGen.int_terms_4 I z β = log2T I z β ∧
+    RayGen.distance_integral I z β deep = distInt I z β deep ∧
+    RayGen.pathlen_integral I z β deep = pathInt I z β deep ∧
+    RayGen.tof_integral I z β deep = tofInt I z β deep :=
+  ⟨bridge_alpha I z β, bridge_nz I z β, bridge_gamma I z β, bridge_log1 I z β, bridge_log2 I z β,
+    bridge_dist I z β deep, bridge_path I z β deep, bridge_tof I z β deep⟩
 
 /-! ## Snell invariant -/
 
@@ -277,18 +293,52 @@ theorem C01_basic_direct_r_error (I : Ice) (β : ℝ) (hk : 0 < I.k) (ha : 0 < I
   exact trap_monotone_error _ h01 n hn
     (tanTheta_monotoneOn I β hk ha (lt_trans betaTolerance_pos hβ) h1)
 
-/-- PARTIAL.  Full statement wanted: the numeric *indirect* path (two legs up to
-`z_turn − z_turn_proximity`) differs from the true indirect ray by a bound in terms of `dz`.
-Proved: each leg's trapezoid sum up to the cut depth `ze < z_turn` is within the monotone bound of the
-exact integral up to `ze`.  Missing: a bound on the part `[ze, z_turn]` that the code cuts off (it is
-of order `√dz` for a refractive turn-over) — the cut is modelled (`basicIndirectR`), not bounded. -/
-theorem C01_basic_indirect_error_partial (I : Ice) (β : ℝ) (hk : 0 < I.k) (ha : 0 < I.a)
-    (hβ : betaTolerance < β) (z0 ze : ℝ) (h0e : z0 ≤ ze) (he : β < nzT I ze) (n : ℕ) (hn : 0 < n) :
-    |trapSigned (fun z => Real.tan (Real.arcsin (β / nzT I z))) z0 ze n
-        - ∫ z in z0..ze, Real.tan (Real.arcsin (β / nzT I z))|
-      ≤ (ze - z0) / n * (Real.tan (Real.arcsin (β / nzT I ze))
-          - Real.tan (Real.arcsin (β / nzT I z0))) / 2 :=
-  trap_monotone_error _ h0e n hn (tanTheta_monotoneOn I β hk ha (lt_trans betaTolerance_pos hβ) he)
+/-- `BasicRayTracer._indirect_r` is "trapezoid leg `z0 → ze` minus signed trapezoid leg `ze → z1`" with
+the cut depth `ze = z_turn − dz/10` (definitional unfolding of the model) -/
+theorem C01_basicIndirectR_unfold (I : Ice) (zFrom zTo angle dz : ℝ) :
+    basicIndirectR I zFrom zTo angle dz =
+      trapSigned (basicTan I zFrom zTo angle) (tracerZ0 zFrom zTo)
+          (I.depthWithIndex (I.index (tracerZ0 zFrom zTo) * Real.sin angle) - dz / proximityDivisor)
+          (nCells ((I.depthWithIndex (I.index (tracerZ0 zFrom zTo) * Real.sin angle) - dz / proximityDivisor
+            - tracerZ0 zFrom zTo) / dz) 1)
+        + -(trapSigned (basicTan I zFrom zTo angle)
+          (I.depthWithIndex (I.index (tracerZ0 zFrom zTo) * Real.sin angle) - dz / proximityDivisor)
+          (tracerZ1 zFrom zTo)
+          (nCells ((I.depthWithIndex (I.index (tracerZ0 zFrom zTo) * Real.sin angle) - dz / proximityDivisor
+            - tracerZ1 zFrom zTo) / dz) 1)) := rfl
+
+/-- numeric *indirect* path, refractive turn-over (`n(z_t) = β`): the two trapezoid legs up to the cut
+depth `ze < z_t` differ from the exact two-leg radial distance up to the turning depth by at most the two
+monotone-trapezoid bounds plus twice the cut-off piece, which is `≤ 2β√(z_t − ze)/√(2β k a e^{a ze})`
+(`z_t − ze = dz/10` in the code, so the cut costs `O(√dz)`) -/
+theorem C01_basic_indirect_error (I : Ice) (β : ℝ) (hk : 0 < I.k) (ha : 0 < I.a)
+    (hβ : betaTolerance < β) (z0 z1 ze zt : ℝ) (h0 : z0 ≤ ze) (h1 : z1 ≤ ze) (he : ze < zt)
+    (hturn : nzT I zt = β) (n1 n2 : ℕ) (hn1 : 0 < n1) (hn2 : 0 < n2) :
+    |(trapSigned (fun z => Real.tan (Real.arcsin (β / nzT I z))) z0 ze n1
+        + -(trapSigned (fun z => Real.tan (Real.arcsin (β / nzT I z))) ze z1 n2))
+      - ((distInt I zt β false - distInt I z0 β false) + (distInt I zt β false - distInt I z1 β false))|
+    ≤ (ze - z0) / n1 * (Real.tan (Real.arcsin (β / nzT I ze)) - Real.tan (Real.arcsin (β / nzT I z0))) / 2
+      + (ze - z1) / n2 * (Real.tan (Real.arcsin (β / nzT I ze)) - Real.tan (Real.arcsin (β / nzT I z1))) / 2
+      + 2 * (2 * β * Real.sqrt (zt - ze) / Real.sqrt (2 * β * (I.k * I.a * Real.exp (I.a * ze)))) := by
+  have hlt : β < nzT I ze := by rw [← hturn]; exact nzT_strictAnti I hk ha he
+  exact indirect_error I β hk ha hβ h0 h1 hlt (cut_bound_turn I β hk ha hβ hturn he) n1 n2 hn1 hn2
+
+/-- numeric indirect path, surface reflection (`β < n(z_t)`, `z_t = hi`): same, the cut-off piece is
+`≤ (z_t − ze) tan θ(z_t)` (`O(dz)`) -/
+theorem C01_basic_indirect_error_reflect (I : Ice) (β : ℝ) (hk : 0 < I.k) (ha : 0 < I.a)
+    (hβ : betaTolerance < β) (z0 z1 ze zt : ℝ) (h0 : z0 ≤ ze) (h1 : z1 ≤ ze) (he : ze ≤ zt)
+    (hrefl : β < nzT I zt) (n1 n2 : ℕ) (hn1 : 0 < n1) (hn2 : 0 < n2) :
+    |(trapSigned (fun z => Real.tan (Real.arcsin (β / nzT I z))) z0 ze n1
+        + -(trapSigned (fun z => Real.tan (Real.arcsin (β / nzT I z))) ze z1 n2))
+      - ((distInt I zt β false - distInt I z0 β false) + (distInt I zt β false - distInt I z1 β false))|
+    ≤ (ze - z0) / n1 * (Real.tan (Real.arcsin (β / nzT I ze)) - Real.tan (Real.arcsin (β / nzT I z0))) / 2
+      + (ze - z1) / n2 * (Real.tan (Real.arcsin (β / nzT I ze)) - Real.tan (Real.arcsin (β / nzT I z1))) / 2
+      + 2 * ((zt - ze) * Real.tan (Real.arcsin (β / nzT I zt))) := by
+  have hlt : β < nzT I ze := by
+    rcases eq_or_lt_of_le he with rfl | h
+    · exact hrefl
+    · exact lt_trans hrefl (nzT_strictAnti I hk ha h)
+  exact indirect_error I β hk ha hβ h0 h1 hlt (cut_bound_reflect I β hk ha hβ hrefl he) n1 n2 hn1 hn2
 
 /-! ## near-vertical branch (known finding K3) -/
 
@@ -353,3 +403,14 @@ example : (0 : ℝ) ≤ 0.004 ∧ (0.004 : ℝ) ≤ betaTolerance ∧ betaTolera
 
 /-- trapezoid theorem: a monotone integrand and a positive cell count exist -/
 example : MonotoneOn (fun x : ℝ => x) (Icc 0 1) ∧ (0 : ℕ) < 4 := ⟨fun _ _ _ _ h => h, by norm_num⟩
+
+/-- numeric-indirect theorem: a turning ray exists (`β = n(−100)` turns at −100 m; legs from −300/−200 up to
+the cut depth −100.1) -/
+example : betaTolerance < nzT antarctic (-100) ∧ (-300 : ℝ) ≤ -100.1 ∧ (-200 : ℝ) ≤ -100.1 ∧
+    (-100.1 : ℝ) < -100 ∧ nzT antarctic (-100) = nzT antarctic (-100) := by
+  have h := antarctic_nz_ge (-100) (by norm_num)
+  refine ⟨?_, by norm_num, by norm_num, by norm_num, rfl⟩
+  have : betaTolerance < (1.35 : ℝ) := by
+    unfold betaTolerance
+    simp only [RofNat, RayConstants.betaToleranceNum, RayConstants.betaToleranceDen]; norm_num
+  linarith
